@@ -6,9 +6,10 @@
 (*  lc:    a (offset), line, col, cache [offset,line_idx,line_start] or    *)
 (*         [-1,-1,-1] (hook; only kind "lidx")                             *)
 (*  off:   line, col (-1 = huge), r        ls: line, r                     *)
-(* For kind "lidx" the implementation-shaped Step predicts the answer AND  *)
-(* the next cache exactly; AnswerPure additionally requires the answer to  *)
-(* equal the pure abstract one (history independence).                     *)
+(* Every answer must equal the pure abstract one (history independence).   *)
+(* For kind "lidx" the cache exposed by the hook must satisfy the          *)
+(* documented representation invariant after every call, and the           *)
+(* implementation-shaped Step run from that real cache must agree.         *)
 (***************************************************************************)
 EXTENDS TraceBase, LineIndexImpl
 
@@ -29,11 +30,15 @@ LcEv(e) ==
   /\ e.e = "lc"
   /\ <<e.line, e.col>> = ToLineCol(starts, e.a)                      \* pure answer
   /\ IF kind = "lidx" /\ e.hooked = 1
-     THEN LET r == Step(starts, cache, e.a)
+     THEN \* the cache the real object holds after the call must satisfy the representation
+          \* invariant documented in lines.rs, and the implementation-shaped Step started from
+          \* the real object's previous cache must give the same (pure) answer.  The exact
+          \* cache CONTENT is not prescribed: the property is about answers, and a different
+          \* but consistent caching policy is not a violation.
+          LET r == Step(starts, cache, e.a)
           IN /\ <<e.line, e.col>> = <<r[1], r[2]>>
-             /\ e.cache = r[3]
              /\ CacheInv(starts, e.cache)
-             /\ cache' = r[3]
+             /\ cache' = e.cache
      ELSE cache' = cache
   /\ UNCHANGED <<starts, len, kind>>
 
